@@ -1,7 +1,7 @@
 """C07 — metadata comes back as stored and queries are exact (P-tier: attach/detach guards)."""
-from . import contops, interface, overlay, toc, wrappers
+from . import contops, interface, overlay, query, toc, wrappers
 
 
 def build(reg):
-    specs = interface.add_interface(reg) + interface.add_interface_get(reg) + interface.add_interface_raw(reg) + overlay.add_writers(reg) + wrappers.add_destroy(reg) + toc.add_toc(reg)  # the children map behind 'requested by any ancestor schema'; what happens to the metadata below a deleted or meta-less-copied group; IH5 driver: delete/create of nodes and attributes (what 'until it is deleted' rests on)
-    return {"verify": specs, "lemmas": [], "trusted": ["plugin_args normalises a schema key to (name, version or None); _get_raw(name) without version finds the object of that schema name if any; _require_schema/_parse_obj raise KeyError/TypeError/ValidationError for unknown/auxiliary/invalid input"], "assumptions": ["MetadorMeta._set_raw/_del_raw/_get_raw/get are verified against call-logging stubs of the raw container, TOCLinks and the plugin system (what they are called with and in which order is proved; what those do is under contract in the C06 specs or checked bounded)", "the collaborators _get_raw/_require_schema/_parse_obj/_set_raw/_del_raw are call-logging stubs with the stated conditions; their own behaviour is checked bounded"]}
+    specs = interface.add_interface(reg) + interface.add_interface_get(reg) + interface.add_interface_raw(reg) + overlay.add_writers(reg) + wrappers.add_destroy(reg) + toc.add_toc(reg) + query.add_query(reg)  # the children map behind 'requested by any ancestor schema'; what happens to the metadata below a deleted or meta-less-copied group; IH5 driver: delete/create of nodes and attributes (what 'until it is deleted' rests on)
+    return {"verify": specs, "lemmas": [], "trusted": query.T_QUERY + ["plugin_args normalises a schema key to (name, version or None); _get_raw(name) without version finds the object of that schema name if any; _require_schema/_parse_obj raise KeyError/TypeError/ValidationError for unknown/auxiliary/invalid input"], "assumptions": ["MetadorMeta._set_raw/_del_raw/_get_raw/get are verified against call-logging stubs of the raw container, TOCLinks and the plugin system (what they are called with and in which order is proved; what those do is under contract in the C06 specs or checked bounded)", "the collaborators _get_raw/_require_schema/_parse_obj/_set_raw/_del_raw are call-logging stubs with the stated conditions; their own behaviour is checked bounded"]}
